@@ -91,10 +91,12 @@ def build(ds, d):
     if ds == "nullable_dt":
         df = pd.DataFrame({"n": pd.array([1, None, 3, 4, None, 6], dtype="Int64"),
                            "t": pd.to_datetime([0, 10 ** 9, None, 3 * 10 ** 9, 4 * 10 ** 9, 5 * 10 ** 9]),
-                           "b": pd.array([True, False, None, True, None, False], dtype="boolean")})
+                           "b": pd.array([True, False, None, True, None, False], dtype="boolean"),
+                           "z": pd.Series(pd.to_datetime([1711846800 * 10 ** 9 + i * 3600 * 10 ** 9 for i in range(6)]))
+                                .dt.tz_localize("UTC").dt.tz_convert("Europe/Paris")})
         path = os.path.join(d, "n.parquet")
         fastparquet.write(path, df, row_group_offsets=[0, 1, 4], write_index=False)
-        return path, ["n", "t", "b"], None, True
+        return path, ["n", "t", "b", "z"], None, True
     raise KeyError(ds)
 
 
@@ -146,6 +148,13 @@ def run(p):
     full = root.to_pandas()
     fullcols = {c: O.series_to_list(full[c]) for c in full.columns}
     fullidx = O.series_to_list(full.index.to_series()) if index_name else None
+
+    def kind_of(frame, c):
+        a = frame[c].array.dtype
+        a = getattr(a, "numpy_dtype", a) if type(a).__name__ == "NumpyEADtype" else a
+        k = O.dtype_kind(a)
+        return k if k[0] != "category" else ("category",)
+    fullkind = {c: kind_of(full, c) for c in full.columns}
     bounds = [0]
     for s in sizes:
         bounds.append(bounds[-1] + s)
@@ -257,6 +266,10 @@ def run(p):
             i = O.first_diff(got, exp)
             if i is not None:
                 bad("values", "%s: column %s row %d is %r, the full read has %r" % (what, c, i, got[i], exp[i]), op=op, col=c)
+                return
+            if c in fullkind and rows and kind_of(df, c) != fullkind[c]:
+                bad("dtype", "%s: column %s has dtype %s, the full read %s" % (what, c, df[c].array.dtype, full[c].array.dtype),
+                    op=op, col=c)
                 return
         if index_name and index is None and "idx" not in got_cols:
             got = O.series_to_list(df.index.to_series())
